@@ -419,8 +419,8 @@ def gen_C14(tier, seed):
         progs.append(p.build())
     # the same source path (HDF5 file, replaced in between) or the same dict / array objects (contents replaced) used for two
     # writes with different data, by one DLISFile or by two: the second file holds the second data, as in a fresh process
-    for i in range(8):
-        route = ['h5', 'h5', 'dict', 'struct'][i % 4]
+    for i in range(10):
+        route = ['h5', 'h5', 'dict', 'struct', 'h5', 'h5', 'dict', 'struct', 'dict', 'dict'][i]
         p = Prog(f'C14-sourcetwice-{i}', {'kind': 'sourcetwice', 'route': route})
         first = np.array([1000.0, 1000.5, 1001.0, 1001.5])
         second = np.array([2000.0, 2000.5, 2001.0, 2001.5, 2002.0])[:4 if i % 2 else 5]
@@ -439,7 +439,9 @@ def gen_C14(tier, seed):
                 if fid == 1 and sub == 0:
                     p.write(f, route=route, data_arrays={d: p.array(first), g: p.array(first * 2)}, fname='w1.dlis')
                 if fid == 101 or sub == (1 if two_files else 0):
-                    p.write(f, route=route, data_arrays={d: p.array(second), g: p.array(second * 3)}, fname=('w2.dlis' if fid == 1 else 'fresh.dlis'))
+                    # (route dict: the caller hands over the SAME dict object again, with other arrays under its keys)
+                    p.write(f, route=route, data_arrays={d: p.array(second), g: p.array(second * 3)}, fname=('w2.dlis' if fid == 1 else 'fresh.dlis'),
+                            same_dict=(route == 'dict'))
         progs.append(p.build())
     # values the library fills in on its own at a write (LONG-NAME of a channel = its name, DIMENSION of a parameter / computation
     # from the shape of its values, ELEMENT-LIMIT of a channel = its DIMENSION) and the user's later changes of what they came from
